@@ -1,0 +1,89 @@
+//go:build verif
+
+// Contracts for package http2, checked by /verif/govc (comment-only file).
+package http2
+
+//@ -- flow.go -----------------------------------------------------------------
+
+//@ pure func avail(f *outflow) int32 = ite(f.conn != nil && f.conn.n < f.n, f.conn.n, f.n)
+
+//@ func (*inflow).init :: f, n
+//@   props C12
+//@   requires f != nil
+//@   assigns f.avail
+//@   ensures f.avail == n
+
+//@ func (*inflow).add :: f, n -> connAdd
+//@   props C12,C10
+//@   requires f != nil && f.avail >= 0 && f.unsent >= 0
+//@   requires [no-negative-update] n >= 0
+//@   requires [window-fits] f.unsent + n + f.avail <= 2147483647
+//@   assigns f.avail, f.unsent
+//@   ensures [C12:ledger] f.avail + f.unsent == old(f.avail) + old(f.unsent) + n
+//@   ensures [C12:either-buffered-or-sent] (connAdd == 0 && f.unsent == old(f.unsent) + n && f.avail == old(f.avail)) || (connAdd == old(f.unsent) + n && f.unsent == 0 && f.avail == old(f.avail) + connAdd)
+//@   ensures [C12:bounded-debt] f.unsent == 0 || (f.unsent < 4096 && f.unsent < f.avail)
+//@   ensures [C12:inv] f.avail >= 0 && f.unsent >= 0 && connAdd >= 0
+
+//@ func (*inflow).take :: f, n -> ok
+//@   props C12,C10
+//@   requires f != nil && f.avail >= 0
+//@   assigns f.avail
+//@   ensures [C12:take-iff-fits] ok <==> n <= old(f.avail)
+//@   ensures [C12:take-exact] ok ==> f.avail == old(f.avail) - n
+//@   ensures [C12:refuse-unchanged] !ok ==> f.avail == old(f.avail)
+//@   ensures [C12:inv] f.avail >= 0
+
+//@ func takeInflows :: f1, f2, n -> ok
+//@   props C12,C10
+//@   requires f1 != nil && f2 != nil && f1 != f2 && f1.avail >= 0 && f2.avail >= 0
+//@   assigns f1.avail, f2.avail
+//@   ensures [C12:take-iff-both-fit] ok <==> (n <= old(f1.avail) && n <= old(f2.avail))
+//@   ensures [C12:take-exact] ok ==> f1.avail == old(f1.avail) - n && f2.avail == old(f2.avail) - n
+//@   ensures [C12:refuse-unchanged] !ok ==> f1.avail == old(f1.avail) && f2.avail == old(f2.avail)
+//@   ensures [C12:inv] f1.avail >= 0 && f2.avail >= 0
+
+//@ func (*outflow).setConnFlow :: f, cf
+//@   props C12
+//@   requires f != nil
+//@   assigns f.conn
+//@   ensures f.conn == cf
+
+//@ func (*outflow).available :: f -> result
+//@   props C12,C20
+//@   requires f != nil
+//@   assigns nothing
+//@   ensures [C12:available-is-min] result == avail(f)
+
+//@ func (*outflow).take :: f, n
+//@   props C12,C20,C10
+//@   requires f != nil && f.conn != f
+//@   requires [C12:take-within-window] n <= avail(f)
+//@   requires n >= 0
+//@   assigns f.n, f.conn.n
+//@   ensures [C12:stream-window-reduced] f.n == old(f.n) - n
+//@   ensures [C12:conn-window-reduced] f.conn != nil ==> f.conn.n == old(f.conn.n) - n
+
+//@ func (*outflow).add :: f, n -> ok
+//@   props C12
+//@   requires f != nil
+//@   assigns f.n
+//@   ensures [C12:add-iff-no-overflow] ok <==> (-2147483648 <= old(f.n) + n && old(f.n) + n <= 2147483647)
+//@   ensures [C12:add-exact] ok ==> f.n == old(f.n) + n
+//@   ensures [C12:overflow-unchanged] !ok ==> f.n == old(f.n)
+
+//@ -- writesched.go -------------------------------------------------------------
+
+//@ pure func isData(wr FrameWriteRequest) bool = isptr(writeData, wr.write)
+//@ pure func dataOf(wr FrameWriteRequest) *writeData = unboxptr(writeData, wr.write)
+//@ pure func allowedFor(wr FrameWriteRequest, n int32) int32 = min(min(avail(wr.stream.flow), n), wr.stream.sc.maxFrameSize)
+
+//@ func FrameWriteRequest.Consume :: wr, n -> consumed, rest, num
+//@   props C12,C20
+//@   requires isData(wr) ==> dataOf(wr) != nil && wr.stream != nil && wr.stream.sc != nil && wr.stream.flow.conn != wr.stream.flow
+//@   assigns wr.stream.flow.n, wr.stream.flow.conn.n
+//@   ensures [C20:non-data-whole] !isData(wr) || len(old(dataOf(wr).p)) == 0 ==> num == 1 && consumed == wr && wr.stream.flow.n == old(wr.stream.flow.n)
+//@   ensures [C12:blocked-takes-nothing] isData(wr) && len(old(dataOf(wr).p)) > 0 && old(allowedFor(wr, n)) <= 0 ==> num == 0 && wr.stream.flow.n == old(wr.stream.flow.n) && (wr.stream.flow.conn != nil ==> wr.stream.flow.conn.n == old(wr.stream.flow.conn.n))
+//@   ensures [C12:split-within-window] isData(wr) && old(allowedFor(wr, n)) > 0 && len(old(dataOf(wr).p)) > old(allowedFor(wr, n)) ==> num == 2 && isData(consumed) && isData(rest) && dataOf(consumed).p == old(dataOf(wr).p)[:old(allowedFor(wr, n))] && dataOf(rest).p == old(dataOf(wr).p)[old(allowedFor(wr, n)):] && wr.stream.flow.n == old(wr.stream.flow.n) - old(allowedFor(wr, n))
+//@   ensures [C20:split-keeps-stream-and-end] num == 2 ==> consumed.stream == wr.stream && rest.stream == wr.stream && !dataOf(consumed).endStream && dataOf(rest).endStream == old(dataOf(wr).endStream) && dataOf(consumed).streamID == old(dataOf(wr).streamID) && dataOf(rest).streamID == old(dataOf(wr).streamID) && rest.done == wr.done
+//@   ensures [C12:whole-within-window] isData(wr) && len(old(dataOf(wr).p)) > 0 && old(allowedFor(wr, n)) > 0 && len(old(dataOf(wr).p)) <= old(allowedFor(wr, n)) ==> num == 1 && consumed == wr && wr.stream.flow.n == old(wr.stream.flow.n) - len(old(dataOf(wr).p))
+//@   ensures [C12:conn-window-follows] wr.stream != nil && wr.stream.flow.conn != nil ==> wr.stream.flow.conn.n - old(wr.stream.flow.conn.n) == wr.stream.flow.n - old(wr.stream.flow.n)
